@@ -72,7 +72,7 @@ class Construction:
 
     @property
     def inst(self):
-        return self.path.value if self.path.returned else None
+        return self.path.value[0] if self.path.returned else None
 
     def label(self):
         return "%s/%s %s%s" % (self.setname, self.opkey,
@@ -122,10 +122,11 @@ def construct_all(prog, key, entry, sets=None, max_combos=600, extra_kwargs=None
                 if extra_kwargs:
                     kw.update(extra_kwargs())
                 holder["args"] = kw
-                return I.instantiate(cls, [op], dict(kw), None, _F("construct %s" % clsname))
+                return (I.instantiate(cls, [op], dict(kw), None, _F("construct %s" % clsname)), kw)
 
             for p in I.explore(thunk, max_paths=64):
-                out.append(Construction(cls, setname, opkey, op, labels, dict(holder.get("args", {})), p))
+                a = dict(p.value[1]) if p.returned else dict(holder.get("args", {}))
+                out.append(Construction(cls, setname, opkey, op, labels, a, p))
     return out
 
 
